@@ -74,7 +74,7 @@ contract(
             "    for k in range(0, len(uin)) for m in range(0, len(xin) - 1))",
     },
     abstract=["mul", "div"],
-    props=["C18", "C15"],
+    props=["C18", "C15", "C17"],
 )
 
 contract(
@@ -87,7 +87,7 @@ contract(
             "all(uin[k] != xin[m] or approx(result[k], vin[m]) for k in range(0, len(uin)) for m in range(1, len(xin)))",
     },
     checks=["post"],
-    props=["C18"],
+    props=["C18", "C17"],
 )
 
 
@@ -124,6 +124,8 @@ def _dom_interplin(tier, seed):
     for n in range(2, 9):
         for _ in range(8 if tier == "quick" else 80):
             x = np.cumsum([rng.choice([0.5, 1.0, 1e-3, 7.0]) for _ in range(n)]) - 3.0
+            if rng.random() < 0.3:
+                x = (x + 3.0) * rng.choice([1e-9, 1e-12, 1e6])      # unevenly spaced tables at tiny / huge absolute scales
             v = np.array([float(rng.randint(-8, 8)) for _ in range(n)])
             u = [x[0] - 2.0, x[0], x[-1], x[-1] + 4.0] + list(x) + [float(rng.uniform(x[0] - 1, x[-1] + 1)) for _ in range(4)]
             yield dict(args=[v, x, np.array(u)])
